@@ -1,6 +1,8 @@
 package main
 
 import (
+	"strconv"
+	"time"
 	"context"
 	"fmt"
 	"github.com/smallnest/rpcx/protocol"
@@ -309,7 +311,95 @@ func c13XClient(o *common.Out, id string, n, g, iters int) {
 	o.Count("concurrent-calls-one-client")
 }
 
+// a registry that changes while a client is being constructed: the first GetServices publishes, before it answers, a
+// snapshot that lacks some servers and then the full set again (a rolling restart seen by the registry)
+type busyDiscovery struct {
+	*client.MultipleServersDiscovery
+	once    sync.Once
+	partial []*client.KVPair
+	full    []*client.KVPair
+}
+
+func (b *busyDiscovery) GetServices() []*client.KVPair {
+	b.once.Do(func() {
+		b.MultipleServersDiscovery.Update(b.partial)
+		b.MultipleServersDiscovery.Update(b.full)
+	})
+	return b.MultipleServersDiscovery.GetServices()
+}
+
+// c13BusyRegistry: a client constructed while the registry publishes (a partial set, then the full set again) and a
+// client constructed afterwards from the same full set agree on every key.  Oracle only.  case: busy|<n>|<drop>
+func c13BusyRegistry(o *common.Out, id string, n, drop int) {
+	abstract := fmt.Sprintf("busy|%d|%d", n, drop)
+	o.Begin(id, abstract)
+	o.Count("registry-publishes-during-construction")
+	var full, partial []*client.KVPair
+	for i := 0; i < n; i++ {
+		kv := &client.KVPair{Key: fmt.Sprintf("vsrv@h%02d", i)}
+		full = append(full, kv)
+		if i%3 != 1 || len(full)-len(partial) > drop {
+			partial = append(partial, kv)
+		}
+	}
+	inner, _ := client.NewMultipleServersDiscovery(full)
+	bd := &busyDiscovery{MultipleServersDiscovery: inner, partial: partial, full: full}
+	opt := client.DefaultOption
+	x1 := client.NewXClient("Svc", client.Failfast, client.ConsistentHash, bd, opt)
+	defer x1.Close()
+	// a last identical publication: when x1 has applied it, it has applied everything before it
+	want := map[string]string{}
+	for _, kv := range full {
+		want[kv.Key] = ""
+	}
+	inner.Update(full)
+	deadline := time.Now().Add(2 * time.Second)
+	for time.Now().Before(deadline) {
+		if got := client.VerifXClientServers(x1); len(got) == len(want) {
+			break
+		}
+		time.Sleep(200 * time.Microsecond)
+	}
+	time.Sleep(3 * time.Millisecond)
+	d2, _ := client.NewMultipleServersDiscovery(full)
+	x2 := client.NewXClient("Svc", client.Failfast, client.ConsistentHash, d2, opt)
+	defer x2.Close()
+	bad := 0
+	example := ""
+	for k := 0; k < 300; k++ {
+		key := fmt.Sprintf("key-%d", k)
+		a := client.VerifXClientSelect(x1, "Svc", "M", key)
+		b := client.VerifXClientSelect(x2, "Svc", "M", key)
+		if a != b {
+			bad++
+			if example == "" {
+				example = fmt.Sprintf("%s: %s vs %s", key, a, b)
+			}
+		}
+	}
+	if bad > 0 {
+		o.Fail(id, "instances-disagree", fmt.Sprintf("a client built while the registry was publishing (%d of %d servers briefly gone) and a client built afterwards from the same %d servers disagree on %d of 300 keys (e.g. %s)", len(full)-len(partial), n, n, bad, example), abstract)
+	}
+	o.ImplOnly(id, abstract, true)
+}
+
 func runC13(r *common.Rand, tier string, o *common.Out, replay string) {
+	if strings.HasPrefix(replay, "busy|") {
+		p := strings.Split(replay, "|")
+		a, _ := strconv.Atoi(p[1])
+		b, _ := strconv.Atoi(p[2])
+		c13BusyRegistry(o, "replay", a, b)
+		return
+	}
+	if replay == "" {
+		k := 0
+		for _, n := range []int{4, 8, 12} {
+			for _, drop := range []int{1, 2, 3} {
+				k++
+				c13BusyRegistry(o, fmt.Sprintf("busy%d", k), n, drop)
+			}
+		}
+	}
 	if strings.HasPrefix(replay, "xconc|") {
 		var n, g, iters int
 		p := strings.Split(replay, "|")
